@@ -96,6 +96,23 @@ def RanksAbove (l : List Hit) (k d : Hit) : Prop :=
 def droppedJustified (env : Env) (input out : List Hit) : Bool :=
   input.all fun d => out.contains d || out.any fun k => collide env k d && outranks k d
 
+/-! ### neighbour mode (NRPS/PKS domains, ab-motifs, KS sub-types): overlaps are resolved between the
+        raw hits *before* fragments are merged, so a complete hit that no raw hit scoring at least as
+        high collides with cannot be lost — it comes back, possibly inside a merge of its immediate
+        same-profile neighbours -/
+
+/-- no other raw hit scoring at least as high collides with `x` -/
+def uncontested (env : Env) (input : List Hit) (x : Hit) : Bool :=
+  input.all fun k => k == x || decide (k.sc < x.sc) || !collide env k x
+
+/-- the raw hits that neighbour mode may not lose -/
+def mustBeKept (env : Env) (input : List Hit) : List Hit :=
+  input.filter fun x => decide (env.len x.prof < 2 * x.length) && uncontested env input x
+
+/-- every complete, uncontested raw hit lies inside a returned hit of its profile with at least its score -/
+def uncontestedCompleteKept (env : Env) (input out : List Hit) : Bool :=
+  input.all fun x => !(decide (env.len x.prof < 2 * x.length) && uncontested env input x) || out.any fun m => covers m x
+
 /-! ### the incomplete-fragment rule of `remove_incomplete` (threshold 1/2, fallback 1/3) -/
 
 /-- the fragment covers more than half of its profile -/
